@@ -195,10 +195,37 @@ def build_hrg(spec, ids="explicit", rng=None, cls=None, rule_order=None, names=N
     b.hrg = h
     return b
 
-def build_fgg(spec, wconv, ids="explicit", rng=None, rule_order=None, names=None, dtype=None, patterned=False):
-    """wconv: value (Fraction | 'inf') -> python float/bool for the semiring at hand."""
+def patternize(t, zero, rng):
+    """a PatternedTensor denoting the dense tensor t with a sparse pattern where the values allow
+    it: a square matrix whose off-diagonal entries all equal `zero` becomes a diagonal pattern
+    (one shared physical axis); a tensor constant along its first axis becomes an expanded
+    (stride-0) view; otherwise dense."""
+    import torch
+    from fggs.indices import PatternedTensor, PhysicalAxis
+    if t.ndim == 2 and t.shape[0] == t.shape[1] and t.shape[0] >= 2:
+        n = t.shape[0]
+        off = t[~torch.eye(n, dtype=torch.bool)]
+        if bool((off == zero).all()):
+            k = PhysicalAxis(n)
+            return PatternedTensor(torch.diagonal(t).clone(), (k,), (k, k), default=zero)
+    if t.ndim >= 1 and t.shape[0] >= 2 and bool((t == t[0:1]).all()) and t.dtype != torch.bool:
+        return PatternedTensor(t[0].clone()).unsqueeze(0).expand(*t.shape)
+    return PatternedTensor(t)
+
+def build_fgg(spec, wconv, ids="explicit", rng=None, rule_order=None, names=None, dtype=None, patterned=False, stage=None):
+    """wconv: value (Fraction | 'inf') -> python float/bool for the semiring at hand.
+    patterned: give factors sparse PatternedTensor weights where their values allow it.
+    stage: None, or a callable(fgg) invoked after only a prefix of the rules has been added
+    (the remaining rules are added afterwards): exercises caches keyed on the grammar object."""
     import fggs, torch
-    b = build_hrg(spec, ids=ids, rng=rng, cls=fggs.FGG, rule_order=rule_order, names=names)
+    if stage is not None and len(spec["rules"]) >= 2:
+        cut = (rng or random.Random(0)).randint(1, len(spec["rules"]) - 1)
+        part = dict(spec, rules=spec["rules"][:cut])
+        b = build_hrg(part, ids=ids, rng=rng, cls=fggs.FGG, names=names)
+        rest = list(range(cut, len(spec["rules"])))
+    else:
+        b = build_hrg(spec, ids=ids, rng=rng, cls=fggs.FGG, rule_order=rule_order, names=names)
+        rest = []
     g = b.hrg
     for i, size in enumerate(spec["nlabels"]):
         g.add_domain(b.nls[i], fggs.FiniteDomain(["v%d_%d" % (i, k) for k in range(size)]))
@@ -207,11 +234,61 @@ def build_fgg(spec, wconv, ids="explicit", rng=None, rule_order=None, names=None
         ww = nested_map(w, wconv)
         t = torch.tensor(ww, dtype=dtype) if dtype is not None else torch.tensor(ww)
         doms = [g.domains[b.nls[nl].name] for nl in spec["elabels"][el]["type"]]
+        if patterned:
+            t = patternize(t, wconv(Fraction(0)), rng)
         fac = fggs.FiniteFactor(doms, t)
         g.add_factor(b.els[el], fac)
         b.factors[el] = fac
     b.fgg = g
+    if rest:
+        try:
+            stage(g)
+        except Exception:
+            pass
+        # now add the remaining rules to the same object
+        erng = rng or random.Random(0)
+        for ri in rest:
+            r = spec["rules"][ri]
+            gr = fggs.Graph()
+            nodes = [fggs.Node(b.nls[nl], id=("n%d" % k) if ids == "explicit" else None) for k, nl in enumerate(r["nodes"])]
+            for nd in nodes: gr.add_node(nd)
+            edges = []
+            for k, (el, att) in enumerate(r["edges"]):
+                e = fggs.Edge(b.els[el], [nodes[i] for i in att], id=("e%d" % k) if ids == "explicit" else None)
+                gr.add_edge(e); edges.append(e)
+            gr.ext = [nodes[i] for i in r["ext"]]
+            rule = fggs.HRGRule(b.els[r["lhs"]], gr)
+            g.add_rule(rule)
+            b.rules.append((rule, nodes, edges))
     return b
+
+def chain_spec(rng, n_nt=None, dom=None):
+    """mutually recursive chain A1 -> A2 -> ... -> An -> A1 over one node label: each Ai(u) ->
+    step_i(u,v) A_{i+1}(v); A1(u) -> stop(u).  The best derivation is deep: stop is good only in
+    one state that is reached after several steps.  Start S -> init(u) A1(u)."""
+    n_nt = n_nt or rng.randint(2, 3)
+    d = dom or rng.randint(2, 3)
+    nlabels = [d]
+    elabels = [dict(term=False, type=[])] + [dict(term=False, type=[0]) for _ in range(n_nt)]
+    t_init = len(elabels); elabels.append(dict(term=True, type=[0]))
+    t_stop = len(elabels); elabels.append(dict(term=True, type=[0]))
+    steps = []
+    for i in range(n_nt):
+        steps.append(len(elabels)); elabels.append(dict(term=True, type=[0, 0]))
+    rules = [dict(lhs=0, nodes=[0], edges=[(t_init, [0]), (1, [0])], ext=[])]
+    for i in range(n_nt):
+        nxt = 1 + (i + 1) % n_nt
+        rules.append(dict(lhs=1 + i, nodes=[0, 0], edges=[(steps[i], [0, 1]), (nxt, [1])], ext=[0]))
+    stop_rule = dict(lhs=1, nodes=[0], edges=[(t_stop, [0])], ext=[0])
+    rules.insert(rng.randint(1, len(rules)), stop_rule)
+    good = rng.randrange(d)
+    half, quarter, one, zero = Fraction(1, 2), Fraction(1, 4), Fraction(1), Fraction(0)
+    weights = {t_init: [one if u == (good + 1) % d else quarter for u in range(d)],
+               t_stop: [one if u == good else (zero if rng.random() < 0.5 else quarter) for u in range(d)]}
+    for i in range(n_nt):
+        # a cyclic shift with weight 1 (log-weight 0) so that walking around the chain is free
+        weights[steps[i]] = [[one if v == (u + 1) % d else (quarter if rng.random() < 0.5 else zero) for v in range(d)] for u in range(d)]
+    return dict(nlabels=nlabels, elabels=elabels, start=0, rules=rules, weights=weights, features=["chain"], recursive=True)
 
 def random_hrg(rng):
     spec = random_spec(rng, recursive=rng.random() < 0.6)
@@ -277,7 +354,15 @@ def present(spec, rng):
                 s = "".join(rng.choice(alphabet) for _ in range(rng.randint(1, 6)))
                 if s not in used: break
             used.add(s); names[(kind, j)] = s
+    perm = dict(pnl=pnl, pel=pel, rho=rho)
+    back = make_back(spec, perm)
+    back.perm = perm
+    return spec2, names, back
+
+def make_back(spec, perm):
     import itertools
+    pnl, pel, rho = perm["pnl"], perm["pel"], perm["rho"]
+    n_el = len(spec["elabels"])
     def back(out2):
         out = {}
         for el in range(n_el):
@@ -294,4 +379,4 @@ def present(spec, rng):
                 vals.append(flat2[pos])
             out[el] = vals
         return out
-    return spec2, names, back
+    return back
